@@ -1,6 +1,6 @@
 """Path rules on MIR: must-pass-through (every success path goes through a call), verdict consumption
 (a call's result reaches a branch decision or is returned), error-exit recognition."""
-from facts import local_uses
+from facts import local_uses, switch_info
 
 PASS_THROUGH = {"branch", "map_err", "map", "into", "from", "ok_or", "ok_or_else", "and_then", "not", "clone"}
 
@@ -136,3 +136,39 @@ def edge_dominated(fn, switch_bb, taken_targets, block):
                 continue
             stack.append(s)
     return block not in seen
+
+
+def path_conditions(fn, start_blocks=None, skip_errors=False, limit=20000):
+    """Enumerate acyclic paths from entry; yield (blocks, conds) with conds = [(kind, subject, value)]."""
+    succ = fn.succ_map()
+    out = []
+    errs = error_blocks(fn) if skip_errors else set()
+
+    def go(b, acc, conds):
+        if len(out) > limit or b in errs:
+            return
+        acc = acc + [b]
+        t = fn.blocks[b]["t"]
+        nxt = succ[b]
+        if not nxt:
+            out.append((acc, conds))
+            return
+        if t["k"] == "switch":
+            si = switch_info(fn, b)
+            for s in nxt:
+                if s in acc:
+                    continue
+                if si:
+                    took = [v for v, tg in si[2].items() if tg == s] or ["other:" + ",".join(si[4])]
+                    go(s, acc, conds + [("enum", si[1].rsplit("::", 1)[-1], si[0], tuple(took))])
+                else:
+                    val = [v for v, tg in t["targets"] if tg == s]
+                    go(s, acc, conds + [("int", t["discr"], None, val[0] if val else "else")])
+        else:
+            for s in nxt:
+                if s not in acc:
+                    go(s, acc, conds)
+    go(0, [], [])
+    return out
+
+
